@@ -422,8 +422,16 @@ func loadersUnit() harness.Unit {
 		na := time.Date(2040, 1, 1, 0, 0, 0, 0, time.UTC)
 		var items []pki
 		ks := sm2k.Alphabet()
-		for i, ki := range []int{5, 8, 9} {
-			k := ks[ki].Lib()
+		for i, ki := range []int{5, 8, 9, -1} {
+			var k *sm2.PrivateKey
+			if ki >= 0 {
+				k = ks[ki].Lib()
+			} else {
+				// the negation of the first key: d' = n-d, public point (x, p-y) - a DIFFERENT key that
+				// shares one coordinate with the first certificate's key
+				k0 := ks[5].Lib()
+				k = &sm2.PrivateKey{PublicKey: sm2.PublicKey{Curve: k0.Curve, X: new(big.Int).Set(k0.X), Y: new(big.Int).Sub(k0.Curve.Params().P, k0.Y)}, D: new(big.Int).Sub(k0.Curve.Params().N, k0.D)}
+			}
 			tmpl := &gx509.Certificate{SerialNumber: big.NewInt(int64(100 + i)), Subject: pkix.Name{CommonName: fmt.Sprintf("sm2-%d", i)}, NotBefore: nb, NotAfter: na,
 				KeyUsage: gx509.KeyUsageDigitalSignature | gx509.KeyUsageKeyEncipherment, SignatureAlgorithm: gx509.SM2WithSM3, DNSNames: []string{"example.test"}}
 			der, err := gx509.CreateCertificate(tmpl, tmpl, &k.PublicKey, k)
